@@ -167,6 +167,8 @@ func (r *AvPacket2RtmpRemuxer) FeedAvPacket(pkt base.AvPacket) {
 		pos := 5
 		maxLength := len(pkt.Payload) + pos + len(nals)
 		payload := make([]byte, maxLength)
+		// the message is a key frame when any of its nal units is an idr / irap slice (not only the last one)
+		isKey := false
 
 		for _, nal := range nals {
 			if pkt.PayloadType == base.AvPacketPtAvc {
@@ -202,6 +204,9 @@ func (r *AvPacket2RtmpRemuxer) FeedAvPacket(pkt base.AvPacket) {
 					// 重组实际数据
 
 					if t == avc.NaluTypeIdrSlice {
+						isKey = true
+					}
+					if isKey {
 						//if AvPacket2RtmpRemuxerAddSpsPps2KeyFrameFlag {
 						//	// 关键帧 组合sps vps与数据帧
 						//	nal = append(append(avc.BuildSpsPps2Annexb(r.sps, r.pps)[4:], hevc.NaluStartCode4...), nal...)
@@ -247,6 +252,9 @@ func (r *AvPacket2RtmpRemuxer) FeedAvPacket(pkt base.AvPacket) {
 					}
 				} else {
 					if hevc.IsIrapNalu(t) {
+						isKey = true
+					}
+					if isKey {
 						//if AvPacket2RtmpRemuxerAddSpsPps2KeyFrameFlag {
 						//	// 关键帧 组合vps sps pps与数据帧
 						//	annexb, err := hevc.BuildVpsSpsPps2Annexb(r.vps, r.sps, r.pps)
